@@ -89,6 +89,9 @@ T = {
          "Lengths <= 7; object values from a 4-value alphabet."),
 }
 
+# checks that are finished and verified silent on the unchanged tree
+READY = {"C01", "C07", "C08", "C14"}
+
 NOT_BUILT_REASON = ("check not built yet in this round (designed in "
                     "DESIGN.md section 3); not claimed until it exists")
 
@@ -98,7 +101,8 @@ def main() -> None:
     na = []
     for pid in sorted(T):
         lvl, tech, text, note = T[pid]
-        if os.path.exists(os.path.join(HERE, "props", pid.lower() + ".py")):
+        if pid in READY and os.path.exists(
+                os.path.join(HERE, "props", pid.lower() + ".py")):
             checks.append({
                 "property_id": pid,
                 "quick_cmd": f"/venv/bin/python /verif/check.py {pid} "
